@@ -511,10 +511,14 @@ fn cli_under_features(run: &Run) {
             for kind in 0..3 {
                 jobs.push((f, i, kind));
             }
+            // kind 3: exported by this binary, imported by the binary of the NEXT feature set, with the naive counter
+            if !inputs[i].tts.is_empty() {
+                jobs.push((f, i, 3));
+            }
         }
     }
     let res = run.par_family(
-        &format!("the CLI built under {} feature sets x {} inputs x {{naive, hybrid, export + import}} x {{grd+com+stm, grd+stmng+twoval}}", all.len(), inputs.len()),
+        &format!("the CLI built under {} feature sets x {} inputs x {{naive, hybrid, export + import}} x {{grd+com+stm, grd+stmng+twoval}}; exports of every binary imported by the binary of the next feature set with the naive counter", all.len(), inputs.len()),
         jobs.len() as u64,
         || 0u64,
         |st, j| {
@@ -522,6 +526,53 @@ fn cli_under_features(run: &Run) {
             let (fs, cli) = &all[f];
             let inp = &inputs[i];
             let path = format!("{}/in_{}.adf", tmp.0, i);
+            if kind == 3 {
+                *st += 1;
+                let (fs2, cli2) = &all[(f + 1) % all.len()];
+                let exp = format!("{}/xexp_{}_{}.json", tmp.0, f, i);
+                let _ = std::fs::remove_file(&exp);
+                let mut found: Vec<(String, String)> = vec![];
+                let o = run_cli(cli, &["--lib".into(), "naive".into(), "-q".into(), "--export".into(), exp.clone(), path.clone()]);
+                if o.code != Some(0) {
+                    found.push(("export:exit".to_string(), format!("--export exits with {:?}", o.code)));
+                } else {
+                    let o = run_cli(cli2, &["--lib".into(), "naive".into(), "-q".into(), "--import".into(), "--counter".into(), "nai".into(), "--grd".into(), exp.clone()]);
+                    if o.code != Some(0) {
+                        found.push(("cross-import:exit".to_string(), format!("--import --counter nai --grd exits with {:?}: {}", o.code, o.stderr.lines().last().unwrap_or("").chars().take(160).collect::<String>())));
+                    } else {
+                        let first = o.stdout.lines().next().unwrap_or("").to_string();
+                        let nums: Vec<u128> = first.split(|c: char| !c.is_ascii_digit()).filter(|t| !t.is_empty()).filter_map(|t| t.parse().ok()).collect();
+                        if nums.len() != 2 * inp.tts.len() {
+                            found.push(("cross-import:counter-line".to_string(), format!("the counter line is {:?}", first)));
+                        } else {
+                            let n = inp.tts.len();
+                            for (sidx, tt) in inp.tts.iter().enumerate() {
+                                let sat = (tt & full(n)).count_ones() as u128;
+                                let unsat = (1u128 << n) - sat;
+                                let (cm, m) = (nums[2 * sidx], nums[2 * sidx + 1]);
+                                if m * unsat != cm * sat || m + cm == 0 {
+                                    found.push(("cross-import:counts".to_string(), format!("statement #{}: the counter prints {} counter-models and {} models, the condition has them in the ratio {}:{}", sidx, cm, m, unsat, sat)));
+                                }
+                            }
+                        }
+                        // the grounded line that follows
+                        let want = crate::oracle::grounded(&inp.tts);
+                        match o.stdout.lines().nth(1).and_then(crate::cli::parse_line).and_then(|l| crate::cli::to_interp(&l, &inp.labels)) {
+                            Some(g) if g == want => {}
+                            other => found.push(("cross-import:grounded".to_string(), format!("grounded after the import is {:?}, the definition gives {}", other.map(|g| interp_str(&g)), interp_str(&want)))),
+                        }
+                    }
+                }
+                let _ = std::fs::remove_file(&exp);
+                for (kind_s, msg) in found {
+                    run.violation(
+                        &format!("[{} -> {}] cli:{}", fs, fs2, kind_s),
+                        format!("{} [exported by the binary built with features [{}], imported by the one built with [{}]] on {}", msg, fs, fs2, inp.text.replace('\n', "")),
+                        json!({"features": fs, "inner_property": "none", "inner_case": {"cross_import": [fs, fs2], "text": inp.text}}),
+                    );
+                }
+                return;
+            }
             for flags in [0b111u32, (1 << 8) | (1 << 9) | 1] {
                 *st += 1;
                 let found = if kind < 2 {
